@@ -325,9 +325,14 @@ class FileResponse(Response, FileResponseMixin):
         file_size: int,
         start_response: StartResponse,
     ) -> Generator[bytes, None, None]:
-        self.headers["content-type"] = str(self.content_type)
-        self.headers["content-length"] = str(file_size)
-        start_response(StatusStringMapping[200], self.list_headers(as_bytes=False))
+        headers = {
+            "content-type": str(self.content_type),
+            "content-length": str(file_size),
+        }
+        start_response(
+            StatusStringMapping[200],
+            self.list_headers(as_bytes=False, replace=headers),
+        )
 
         if send_header_only:
             yield b""
@@ -345,10 +350,15 @@ class FileResponse(Response, FileResponseMixin):
         start: int,
         end: int,
     ) -> Generator[bytes, None, None]:
-        self.headers["content-range"] = f"bytes {start}-{end-1}/{file_size}"
-        self.headers["content-type"] = str(self.content_type)
-        self.headers["content-length"] = str(end - start)
-        start_response(StatusStringMapping[206], self.list_headers(as_bytes=False))
+        headers = {
+            "content-range": f"bytes {start}-{end-1}/{file_size}",
+            "content-type": str(self.content_type),
+            "content-length": str(end - start),
+        }
+        start_response(
+            StatusStringMapping[206],
+            self.list_headers(as_bytes=False, replace=headers),
+        )
         if send_header_only:
             yield b""
             return
@@ -366,13 +376,18 @@ class FileResponse(Response, FileResponseMixin):
         ranges: Sequence[Tuple[int, int]],
     ) -> Generator[bytes, None, None]:
         boundary = "".join(random_choices("abcdefghijklmnopqrstuvwxyz0123456789", k=13))
-        self.headers["content-type"] = f"multipart/byteranges; boundary={boundary}"
         content_length, generate_headers = self.generate_multipart(
             ranges, boundary, file_size, self.content_type
         )
-        self.headers["content-length"] = str(content_length)
+        headers = {
+            "content-type": f"multipart/byteranges; boundary={boundary}",
+            "content-length": str(content_length),
+        }
 
-        start_response(StatusStringMapping[206], self.list_headers(as_bytes=False))
+        start_response(
+            StatusStringMapping[206],
+            self.list_headers(as_bytes=False, replace=headers),
+        )
         if send_header_only:
             yield b""
             return
@@ -393,9 +408,6 @@ class FileResponse(Response, FileResponseMixin):
 
         stat_result = self.stat_result
         file_size = stat_result.st_size
-        # a response object may serve several requests: forget the last one
-        self.headers.pop("content-range", None)
-
         if "HTTP_RANGE" not in environ or (
             "HTTP_IF_RANGE" in environ
             and not self.judge_if_range(environ["HTTP_IF_RANGE"], stat_result)
